@@ -385,7 +385,13 @@ def validate(run, scratch: Path):
             e = tr[l - 1]
             prev = tr[l - 2] if l > 1 else None
             kind = "dir" if e["src"].startswith("DataStoreDirectory") else "sqlite"
-            key = f"trace:{kind}:{e['op']}:mode={prev['mode'] if prev else '?'}:ret={e['ret']}"
+            pre = "-"
+            if prev and e["op"] in ("Write", "WriteNC", "DropNC"):
+                i = e["args"][0]
+                pre = ("C" if i in prev["comp"] else "") + ("N" if i in prev["nc"] else "") or "-"
+            key = f"trace:{kind}:{e['op']}:mode={prev['mode'] if prev else '?'}:pre={pre}:ret={e['ret']}"
+            if key == "trace:dir:WriteNC:mode=a:pre=N:ret=ok":
+                key = "dir:append-rewrites-not-completed"
             run.fail(key, {"source": tag, "trace_src": e["src"], "step": l, "event": e, "previous": prev}, what="recorded execution is not a behaviour of DataStore.tla")
         if raw and raw[0]:
             run.sample({"trace_source": tag, "first_events": [{k: v for k, v in e.items() if k != "src"} for e in raw[0][:3]]})
